@@ -529,21 +529,21 @@ func Check(p *Prop, o Options) int {
 	wall := time.Since(t0).Seconds()
 	if o.Only == "" {
 		cov := map[string]any{
-			"evaluations":           evals,
-			"distinct_nontrivial":   int64(len(hashes)),
-			"nontrivial_total":      nontrivSum,
-			"rule":                  p.Rule,
-			"samples":               samples,
-			"observed_events":       stats,
-			"observed_maxima":       maxes,
-			"shards":                nshards,
-			"children_died":         died,
-			"race_detector":         p.Race,
+			"evaluations":             evals,
+			"distinct_nontrivial":     int64(len(hashes)),
+			"nontrivial_total":        nontrivSum,
+			"rule":                    p.Rule,
+			"samples":                 samples,
+			"observed_events":         stats,
+			"observed_maxima":         maxes,
+			"shards":                  nshards,
+			"children_died":           died,
+			"race_detector":           p.Race,
 			"peak_child_resident_mib": peakRSS >> 20,
 			"child_resident_cap_mib":  p.MemCapMiB,
-			"race_report_blocks":    raceBlocks,
-			"race_reports_distinct": len(raceList),
-			"verdict":               []string{"held on what was observed", "violated", "inconclusive"}[exit],
+			"race_report_blocks":      raceBlocks,
+			"race_reports_distinct":   len(raceList),
+			"verdict":                 []string{"held on what was observed", "violated", "inconclusive"}[exit],
 		}
 		if len(samples) == 0 {
 			cov["samples"] = []any{"(no sample recorded)"}
